@@ -15,7 +15,22 @@ type client struct {
 	endpoint   net.EndPoint
 	state      map[string]int
 	stateMutex sync.Mutex
+	locks      map[string]*sync.Mutex
 	capability CapabilityMap
+}
+
+// signalLock returns the lock which serialises, for one signal, the
+// bookkeeping of the registration shared by the local subscribers
+// (State) with the remote calls which create and remove it.
+func (c *client) signalLock(signal string) *sync.Mutex {
+	c.stateMutex.Lock()
+	defer c.stateMutex.Unlock()
+	l, ok := c.locks[signal]
+	if !ok {
+		l = &sync.Mutex{}
+		c.locks[signal] = l
+	}
+	return l
 }
 
 // The message ids are drawn from one counter for the whole process
@@ -224,6 +239,7 @@ func NewClient(channel Channel) Client {
 	return &client{
 		endpoint:   channel.EndPoint(),
 		state:      map[string]int{},
+		locks:      map[string]*sync.Mutex{},
 		capability: channel.Cap(),
 	}
 }
